@@ -11,7 +11,7 @@ PROPERTY = 'C04'
 LEVEL = 'model_checking'
 RULE = ('every program = (0-3 handlers of event e with distinct priorities drawn from 19 shapes: return v / return 0 / return None / raise / return a nested Value / '
         'generator yielding 0-2 values (None or not) / generator raising at step 0 or 1) x (success, failure, notify, '
-        'success_channels) x (optional nested event fired by a handler | the event fired twice: after the first settled / both in flight); each program executed once, driven by tick() to '
+        'success_channels) x (optional nested event fired by a handler | the event fired twice: after the first settled / both in flight); each program executed once (programs with <= 2 handlers also with declared event classes deriving from a warm base class instead of Event.create), driven by tick() to '
         'quiescence; non-trivial = at least two different handler shapes or a raising/generator handler; distinct = distinct program')
 ASSUMPTIONS = [
     'result values are ints (list-valued handler results are not in the alphabet)',
@@ -111,8 +111,9 @@ def build(program):
     return handlers
 
 
-def execute(program):
+def execute(program, style='create'):
     hs, fi, nested = program
+    ghost.World.event_style = style
     # named observers only, so that an event without handlers really has none
     ghost.World.observe_names = ['e_success', 'e_failure', 'f_success', 'f_failure', 'exception', 'e_value_changed', 'gok', 'gx', 'g2']
     try:
@@ -121,6 +122,8 @@ def execute(program):
         w.scripts = {h[0]: h[3] for h in hl}
     finally:
         ghost.World.observe_names = None
+        ghost.World.event_style = 'create'
+    w.event_style = style
     flags = FLAGS[fi]
     crashed = None
     quiescent = False
@@ -261,6 +264,13 @@ def _work(part, nparts, payload):
         st.executions += 1
         st.transitions += len(w.log)
         bad = judge(program, w, e, s, quiescent, crashed)
+        if len(program[0]) <= 2:
+            # ... and once more with declared event classes deriving from a base class that is warm (see mc/ghost.py)
+            w2, e2, s2, q2, c2 = execute(program, 'classes')
+            st.executions += 1
+            st.counters['programs_also_run_with_declared_event_classes'] += 1
+            bad = bad + [(k + ':event-classes', t + ' [events are instances of declared classes with a common, warm base class]')
+                         for k, t in judge(program, w2, e2, s2, q2, c2) if (k, t) not in bad]
         st.outcome(tuple(x for x in w.log if x[0] in ('obs', 'val')))
         hs = program[0]
         if any(si in (12, 13, 18) for si in hs):
@@ -368,7 +378,7 @@ def prog_json(program):
 
 
 def run(tier, seed, workers):
-    total = sum(1 for _ in programs(tier))
+    total = sum(2 if len(p[0]) <= 2 else 1 for p in programs(tier))      # (programs with <= 2 handlers run in both event styles)
     st = core.parallel(_work, (tier, seed), workers, nparts=workers * 4)
     for case in two_managers_cases():
         logs, values, crashed = run_two_managers(case)
@@ -404,6 +414,9 @@ def replay(wit):
     program = (tuple(wit['hs']), wit['flags_index'], nested)
     w, e, s, quiescent, crashed = execute(program)
     bad = judge(program, w, e, s, quiescent, crashed)
+    if not bad and len(program[0]) <= 2:
+        w, e, s, quiescent, crashed = execute(program, 'classes')
+        bad = [(k + ':event-classes', t) for k, t in judge(program, w, e, s, quiescent, crashed)]
     text = 'program %r\nlog:\n  %s\nValue: %r errors=%r\n' % (prog_json(program), '\n  '.join(map(repr, w.log)),
                                                            ghost.snapv(w.values[e.eid].value), w.values[e.eid].errors)
     text += ''.join('VIOLATED %s: %s\n' % b for b in bad) or 'all clauses hold\n'
